@@ -162,6 +162,9 @@ func NewFullRT(h host.Host, protocolPrefix protocol.ID, options ...Option) (*Ful
 		EnableValues:     true,
 		ProtocolPrefix:   protocolPrefix,
 		MsgSenderBuilder: net.NewMessageSenderImpl,
+		// Without a default, a caller that does not pass the BucketSize option
+		// gets a bucket size of 0, with which GetClosestPeers never terminates.
+		BucketSize: amino.DefaultBucketSize,
 	}
 
 	if err := dhtcfg.Apply(fullrtcfg.dhtOpts...); err != nil {
